@@ -26,25 +26,9 @@ func ruleVersionNegotiation(c *Ctx) { pending(c, "ruleVersionNegotiation") }
 
 func ruleEnvVersionsOnly(c *Ctx) { pending(c, "ruleEnvVersionsOnly") }
 
-func ruleExit(c *Ctx) { pending(c, "ruleExit") }
-
-func ruleCtx(c *Ctx) { pending(c, "ruleCtx") }
-
-func ruleWG(c *Ctx) { pending(c, "ruleWG") }
-
-func ruleKill(c *Ctx) { pending(c, "ruleKill") }
-
-func ruleSibClose(c *Ctx) { pending(c, "ruleSibClose") }
-
-func ruleClose1(c *Ctx) { pending(c, "ruleClose1") }
-
-func ruleSocketDir(c *Ctx) { pending(c, "ruleSocketDir") }
-
 func ruleIDMux(c *Ctx) { pending(c, "ruleIDMux") }
 
 func ruleSlot(c *Ctx) { pending(c, "ruleSlot") }
-
-func ruleAtomicIDs(c *Ctx) { pending(c, "ruleAtomicIDs") }
 
 func ruleIDGRPC(c *Ctx) { pending(c, "ruleIDGRPC") }
 
@@ -53,8 +37,6 @@ func ruleTLSUse(c *Ctx) { pending(c, "ruleTLSUse") }
 func ruleMuxSer(c *Ctx) { pending(c, "ruleMuxSer") }
 
 func ruleIDKnock(c *Ctx) { pending(c, "ruleIDKnock") }
-
-func ruleExpiry(c *Ctx) { pending(c, "ruleExpiry") }
 
 func ruleOrderO4(c *Ctx) { pending(c, "ruleOrderO4") }
 
@@ -82,10 +64,6 @@ func ruleGateExcl(c *Ctx) { pending(c, "ruleGateExcl") }
 
 func ruleGateProtoMux(c *Ctx) { pending(c, "ruleGateProtoMux") }
 
-func ruleSibDispense(c *Ctx) { pending(c, "ruleSibDispense") }
-
-func ruleSibSwitch(c *Ctx) { pending(c, "ruleSibSwitch") }
-
 func ruleReattach(c *Ctx) { pending(c, "ruleReattach") }
 
 func ruleSentinelReattach(c *Ctx) { pending(c, "ruleSentinelReattach") }
@@ -95,6 +73,4 @@ func ruleCookie(c *Ctx) { pending(c, "ruleCookie") }
 func ruleOrderServe(c *Ctx) { pending(c, "ruleOrderServe") }
 
 func ruleStdout(c *Ctx) { pending(c, "ruleStdout") }
-
-func ruleStopClosesBroker(c *Ctx) { pending(c, "ruleStopClosesBroker") }
 
